@@ -132,6 +132,17 @@ def job_forest(payload):
             out["shapes"][shape] = out["shapes"].get(shape, 0) + 1
             bad = []
             compare(truth, eng, "%s (shape %s, seed %d/%d)" % (os.path.basename(path), shape, seed, i), bad)
+            # parents asked for in ANOTHER order than the one the units are stored in (last unit first, then every second DIE backwards)
+            rp = d.run("(|Dw| [Dw raw unit] relem entry [offset, (parent offset || -1)]), (|Dw| [Dw raw entry] relem ?(pos 2 mod == 0) [offset, (parent offset || -1)])",
+                       inp="d:" + common.hx(path), fuel=0, max=5000000, timeout=600)
+            if rp["st"] != "done":
+                bad.append(("raw-view-query-failed", dict(file=path, shape=shape, err="parents in reverse unit order: %s" % rp.get("msg"))))
+            else:
+                tp = {off: par for root, ver, dies in truth for (off, tag, par, hc, attrs) in dies}
+                for st in rp["res"]:
+                    off, par = [num(x) for x in seqvals(st[-1])]
+                    if tp.get(off) != par:
+                        bad.append(("parent-differs-when-units-are-visited-out-of-order", dict(file=path, shape=shape, die=hex(off), want=tp.get(off), got=par))); break
             # the unit's own offset is where its header starts; a DIE's `unit` is that same unit
             ro = d.run("raw unit [offset, root unit offset, (root child unit offset || -1)]", inp="d:" + common.hx(path), fuel=0, max=100000, timeout=600)
             want = [u.offset for u in f.units if u.root is not None]
